@@ -187,8 +187,8 @@ structure WFParts (s : NvStore) : Prop where
   n255 : s.guids.length ≤ 255
   ref : maxIdx s.entries = s.guids.length
 
-theorem wf_parts (s : NvStore) (h : WF s) : WFParts s := by
-  unfold WF wf at h
+theorem wf1_parts (s : NvStore) (h : wf1 s = true) : WFParts s := by
+  unfold wf1 at h
   simp only [Bool.and_eq_true, Bool.or_eq_true, beq_iff_eq, List.all_eq_true, decide_eq_true_eq,
     List.any_eq_true] at h
   obtain ⟨⟨⟨⟨hpol, hok⟩, hg⟩, h255⟩, href⟩ := h
@@ -199,6 +199,17 @@ theorem wf_parts (s : NvStore) (h : WF s) : WFParts s := by
   · have := maxIdx_ge s.entries e he
     simp only [idxBound, hi] at this
     omega
+
+theorem wf_parts (s : NvStore) (h : WF s) : WFParts s := by
+  unfold WF wf at h
+  simp only [Bool.and_eq_true] at h
+  exact wf1_parts s h.1
+
+/-- no entry of a well-formed flat store carries a nested store -/
+theorem wf_plain (s : NvStore) (h : WF s) : ∀ e ∈ s.entries, e.plain = true := by
+  unfold WF wf at h
+  simp only [Bool.and_eq_true, List.all_eq_true] at h
+  exact h.2
 
 theorem ser_length (s : NvStore) (h : WFParts s) :
     s.ser.length = entriesLen s.entries + s.free + 16 * s.guids.length := by
@@ -286,17 +297,17 @@ theorem walk_ser (s : NvStore) (hwf : WFParts s) (post pre : List Entry) (hE : s
       | var f g n v x nx =>
         have hok' := hok
         simp only [Entry.ok, Bool.and_eq_true, decide_eq_true_eq] at hok'
-        obtain ⟨⟨hsz, _⟩, ⟨⟨⟨⟨hf, _⟩, _⟩, _⟩, hnx⟩⟩ := hok'
+        obtain ⟨hsz, ⟨⟨⟨⟨hf, _⟩, _⟩, _⟩, hnx⟩⟩ := hok'
         exact ⟨hsz, (lastFlag_cases s.pol hwf.pol nx hnx).2, (var_bits f g n v x nx hf).1⟩
       | data f v x nx =>
         have hok' := hok
         simp only [Entry.ok, Bool.and_eq_true, decide_eq_true_eq] at hok'
-        obtain ⟨⟨hsz, _⟩, ⟨hf, _⟩, hnx⟩ := hok'
+        obtain ⟨hsz, ⟨hf, _⟩, hnx⟩ := hok'
         exact ⟨hsz, (lastFlag_cases s.pol hwf.pol nx hnx).2, (data_bits f v x nx hf).1⟩
       | dead a nx b =>
         have hok' := hok
         simp only [Entry.ok, Bool.and_eq_true, decide_eq_true_eq] at hok'
-        obtain ⟨⟨hsz, _⟩, ha, hnx⟩ := hok'
+        obtain ⟨hsz, ha, hnx⟩ := hok'
         exact ⟨hsz, by simpa [Entry.nextField] using hnx, by simp [Entry.attrs]; omega⟩
     rw [newNVar_ser s.pol hwf.pol _ _ _ _ e tail hrange.1 hrange.2.1 hrange.2.2]
     have hoff : 0 < entriesLen pre ∨ owners [] pre 0 = [] := by
